@@ -146,6 +146,12 @@ def catalogue(quick=True):
     yc["terms"] = yc["terms"] + [term("floor", "Constant", "1/4")]
     cs.append(engine("constant-under-integral", [in_a(), in_b()], [yc],
                      [block("rb", [rule(P("a", "lo"), [C("y", "floor")]), rule(P("b", "hi"), [C("y", "s")]), rule(AND(P("a", "hi"), P("b", "lo")), [C("y", "floor"), C("y", "l")], weight="1/2")])]))
+    # a term taller than 1 under a clipping implication, concluded by a rule that fires with degree exactly 1: min(1, 3/2 mu) is capped
+    yt = out_y()
+    yt["terms"][0]["h"] = X("3/2")
+    yt["terms"][2]["h"] = X("3/2")       # (the trapezoid is not symmetric: capping it moves the centroid)
+    cs.append(engine("tall-term-under-minimum", [in_a(), in_b()], [yt],
+                     [block("rb", [rule(P("a", "lo"), [C("y", "s")]), rule(P("b", "mid"), [C("y", "l")]), rule(P("a", "hi"), [C("y", "m")], weight="1/2")])]))
     # rule weights that are not 1 (or 0) but lie within the library's comparison tolerance of it
     near = copy.deepcopy(ts_rules)
     for r, w in zip(near, ["1023/1024", "2047/2048", "1/1024", "4095/4096", "1/2048"]):
